@@ -347,6 +347,19 @@ class OrderedMultiDict(dict, MutableMappingSequence):
     def copy(self):
         return type(self)(self)
 
+    def __reduce__(self):
+        # The default reduction of a dict subclass hands the item list over
+        # by reference and replays the internal key -> [values] storage
+        # through __setitem__, which corrupts both the copy and the
+        # original.  Rebuild from the list of pairs instead; this serves
+        # copy.copy(), copy.deepcopy() and pickle.
+        state = {
+            k: v
+            for k, v in self.__dict__.items()
+            if k != "_OrderedMultiDict__items"
+        }
+        return type(self), (list(self.__items),), state or None
+
     def insert(self, index: int, *args) -> None:
         """Inserts at the index given by *index*.
 
